@@ -112,3 +112,67 @@ func init() {
 		}
 	}
 }
+
+// kind "c14_field_uses" (property C14): every syntactic use of the struct field it.Name
+// (Repository.referrersState) in the listed files, classified:
+//   <coq>_cas_from_unknown  atomic.CompareAndSwapInt32(&x.f, referrersStateUnknown, _)
+//   <coq>_loads             atomic.LoadInt32(&x.f)
+//   <coq>_other             anything else (assignment, address taken elsewhere, composite literal, ...)
+// The CAS theorem (C14_capability_monotone) covers every detection path only if the field has
+// no other writer: Proofs require <coq>_other = 0.
+func init() {
+	kinds["c14_field_uses"] = func(x *Ctx, it Item) {
+		files, _ := it.Args["files"].([]any)
+		if len(files) == 0 {
+			files = []any{it.File}
+		}
+		cas, loads, other := 0, 0, 0
+		for _, f := range files {
+			file := x.File(f.(string))
+			classified := map[ast.Node]bool{}
+			isField := func(e ast.Expr) bool {
+				u, ok := e.(*ast.UnaryExpr)
+				if !ok || u.Op != token.AND {
+					return false
+				}
+				s, ok := u.X.(*ast.SelectorExpr)
+				return ok && s.Sel.Name == it.Name
+			}
+			ast.Inspect(file, func(n ast.Node) bool {
+				c, ok := n.(*ast.CallExpr)
+				if !ok {
+					return true
+				}
+				fn := exprString(c.Fun)
+				if fn == "atomic.CompareAndSwapInt32" && len(c.Args) == 3 && isField(c.Args[0]) {
+					classified[c.Args[0].(*ast.UnaryExpr).X] = true
+					if exprString(c.Args[1]) == "referrersStateUnknown" {
+						cas++
+					} else {
+						other++
+					}
+				}
+				if fn == "atomic.LoadInt32" && len(c.Args) == 1 && isField(c.Args[0]) {
+					classified[c.Args[0].(*ast.UnaryExpr).X] = true
+					loads++
+				}
+				return true
+			})
+			ast.Inspect(file, func(n ast.Node) bool {
+				switch v := n.(type) {
+				case *ast.SelectorExpr:
+					if v.Sel.Name == it.Name && !classified[v] {
+						other++
+					}
+				case *ast.KeyValueExpr:
+					if id, ok := v.Key.(*ast.Ident); ok && id.Name == it.Name {
+						other++
+					}
+				}
+				return true
+			})
+		}
+		x.Printf("(* uses of the field %s in %v *)\nDefinition %s_cas_from_unknown : Z := %d%%Z.\nDefinition %s_loads : Z := %d%%Z.\nDefinition %s_other : Z := %d%%Z.\n\n",
+			it.Name, files, coqName(it), cas, coqName(it), loads, coqName(it), other)
+	}
+}
